@@ -314,8 +314,8 @@ def run_c19(tier: str) -> int:
 
 
 def store_contract(rep: Report, tier: str) -> int:
-    hs = storeprops.gen_exhaustive(0, "local", 3, "ge19")[:: (9 if tier == "quick" else 1)] + \
-        storeprops.gen_simulated(0, "local", 12, 120 if tier == "quick" else 1500, common.seed(), "gs19")
+    hs = storeprops.gen_exhaustive(0, "local", 3, "ge19", sync_absent=False)[:: (9 if tier == "quick" else 1)] + \
+        storeprops.gen_simulated(0, "local", 12, 120 if tier == "quick" else 1500, common.seed(), "gs19", sync_absent=False)
     storeprops.PATHSETS["dots"] = {1: "/.h", 2: "/h", 3: "/a/.b"}
     tasks = []
     for (i, h) in enumerate(hs):
